@@ -54,7 +54,12 @@ def grammar_jobs(rng, cases, run0, backends, per_job=120, prefix="g", allow=None
     rng.shuffle(cases)
     k = 0
     for i in range(0, len(cases), per_job):
-        steps = list(PREFIX) + [case_step(rng, c) for c in cases[i:i + per_job]]
+        steps = list(PREFIX)
+        for c in cases[i:i + per_job]:
+            steps.append(case_step(rng, c))
+            # a refused upload must not even register a client the server has never seen
+            if c["route"] in ("av", "as") and c["method"] == "POST" and c["cid"] == "valid" and c["cls"] == "no":
+                steps.append(case_step(rng, c, c=3))
         jobs.append({"id": f"{prefix}{k}", "run": run0 + k, "backend": backends[k % len(backends)], "driver": "http",
                      "cfg": {"days": 2, "versions": 3}, "nclients": 3, "steps": steps, "first_free": 1, "kind": "grammar",
                      "allow": allow})
@@ -71,4 +76,17 @@ def big_jobs(rng, cases, run0, backend="inmemory", prefix="big"):
         steps.append({"op": "GetChildVersion", "c": 1, "arg": {"sym": "anc", "k": 1}})
         jobs.append({"id": f"{prefix}{k}", "run": run0 + k, "backend": backend, "driver": "http",
                      "cfg": {"days": 2, "versions": 3}, "nclients": 3, "steps": steps, "first_free": 1, "kind": "grammar-big"})
+    return jobs
+
+
+def outage_jobs(run0, backends=("inmemory", "sqlite"), prefix="out"):
+    """all four endpoints while every storage transaction fails (500s), then recovery"""
+    jobs = []
+    reqs = [{"op": "AddVersion", "c": 1, "arg": {"sym": "latest"}}, {"op": "GetChildVersion", "c": 1, "arg": {"sym": "anc", "k": 1}},
+            {"op": "AddSnapshot", "c": 1, "arg": {"sym": "latest"}}, {"op": "GetSnapshot", "c": 1},
+            {"op": "AddVersion", "c": 3, "arg": {"sym": "nil"}}, {"op": "GetSnapshot", "c": 3}]
+    for k, b in enumerate(backends):
+        steps = list(PREFIX) + [{"op": "FailStorage", "on": True}] + reqs + [{"op": "FailStorage", "on": False}] + reqs
+        jobs.append({"id": f"{prefix}{k}", "run": run0 + k, "backend": b, "driver": "http", "cfg": {"days": 2, "versions": 3}, "nclients": 3,
+                     "steps": steps, "first_free": 1, "kind": "outage"})
     return jobs
